@@ -34,6 +34,22 @@ def or3 (l r : Value) : Value :=
     | .bool rh => if rh then .bool true else .null
     | _ => .null
 
+/-- `core::not` (`bifs/core.rs:726`): the negation of a boolean, null for every other value
+(a list of one boolean included: no implicit conversion takes place). -/
+def not3 (v : Value) : Value :=
+  match v with
+  | .bool b => .bool (!b)
+  | _ => .null
+
+/-- `build_if` (`builders.rs:979`): `true` selects the first branch, `false` and `null` the second;
+any other condition gives null. -/
+def if3 (c t e : Value) : Value :=
+  match c with
+  | .bool true => t
+  | .bool false => e
+  | .null => e
+  | _ => .null
+
 /-! ## dates and instants -/
 
 def dateTupleCmp (y1 : Int) (m1 d1 : Nat) (y2 : Int) (m2 d2 : Nat) : Ordering :=
